@@ -255,7 +255,14 @@ def verifyItem (glob : Str → Str → Bool) (ctx : Ctx) (item : Item) : Outcome
   match lookup item.name ctx with
   | none => .err "no-link-for-item"
   | some none => .err "invalid-metadata"
-  | some (some link) =>
+  | some (some link0) =>
+    -- the item's own artifact maps are cleaned in place first (Go: `cleanArtifactPaths(materials)`,
+    -- `cleanArtifactPaths(products)` at the top of the item's round; finding F21): the sets of
+    -- created / deleted / modified artifacts are computed from the cleaned maps
+    let cleanLink : LinkArts → LinkArts := fun l =>
+      { materials := cleanArts l.materials, products := cleanArts l.products }
+    let ctx := ctxUpdate ctx item.name cleanLink
+    let link := cleanLink link0
     let materialPaths := dedup ((artsKeys link.materials).map Path.clean)
     let productPaths := dedup ((artsKeys link.products).map Path.clean)
     let created := sdiff productPaths materialPaths
